@@ -30,7 +30,18 @@ CapBig == S(<<E(<<T(1, 1, 1), T(2, 1, 1)>>, 3), E(<<T(3, 1, 1)>>, 0)>>, <<1, 2, 
 W3 == S(<<E(<<CP(1, 1, 1), T(2, 2, Eternal)>>, 0), E(<<T(3, 3, 1)>>, 0)>>, <<1, 2, 3>>, 3)
 W3Any == S(<<E(<<ACP(1, 1, 1), ACP(2, 1, 2), ACP(3, 1, 2)>>, 0), E(<<T(4, 2, 1)>>, 0)>>, <<1, 2, 3>>, 3)
 
+NoFaults == {"none"}
+FixedFaults == {"req", "param", "store", "die", "cancel"}
+RcStoreFault == {"rcstore"}
+StoreFault == {"store"}
+AllFaults == {"req", "param", "store", "rcstore", "die", "cancel"}
 QuickScenarios == {Seq2, Named2, Named1, Any2, Over1, Over2, Three, CapBig}
+C01QuickScenarios == {Seq2, Named2, Any2, Over1, Over2}
+LiveScenarios == {Named2, Any2, Over1, Over2}
+Tiny2 == S(<<E(<<T(1, 2, 1)>>, 0)>>, <<>>, 2)
+LiveFaultScenarios == {Tiny2}
+FaultSimScenarios == {Seq2, Named2, Tiny2, Over2, Three}
+FaultScenarios == {Seq2, Named2}
 C07Scenarios == {Seq2, Named2, Over2}
 ThoroughScenarios == QuickScenarios \cup {ThreeB, W3, W3Any}
 ====
